@@ -336,10 +336,64 @@ fn judge(zones: &[FlatZone], q: &Question, res: &RunResult) -> Vec<(&'static str
                 }
             }
             RefResult::Cname(c) => {
-                // D3: only the first record and clause (d) are judged
+                // D3: when the chain leaves the authoritative local zones only the
+                // first record and clause (d) are judged
                 let rrs = outcome_rrs(outcome);
                 if rrs.first().map(key) != Some(key(c)) {
                     out.push(("zone-cname-not-first", format!("the answer must start with the zone's {} but is {}", show_rr(c), show_outcome(outcome))));
+                }
+                // ... but a chain that stays inside authoritative local zones to its end
+                // (records, no data, or a name error at the last target) comes from
+                // those zones alone: marked authoritative, exactly the chain and the
+                // final records, no upstream contact
+                let mut expected: Option<Vec<ResourceRecord>> = Some(vec![c.clone()]);
+                let mut target = match &c.rtype_with_data {
+                    RecordTypeWithData::CNAME { cname } => cname.clone(),
+                    _ => q.name.clone(),
+                };
+                for _ in 0..8 {
+                    let Some(acc) = expected.as_mut() else { break };
+                    let tz = match most_specific(zones, &target) {
+                        Some(tz) if tz.soa.is_some() && !under_cut(tz, &target) => tz,
+                        _ => {
+                            expected = None;
+                            break;
+                        }
+                    };
+                    match tz.resolve(&target, q.qtype) {
+                        Some(RefResult::Answer(more)) => {
+                            acc.extend(more);
+                            break;
+                        }
+                        Some(RefResult::NameError) => break,
+                        Some(RefResult::Cname(c2)) => {
+                            if let RecordTypeWithData::CNAME { cname } = &c2.rtype_with_data {
+                                target = cname.clone();
+                            }
+                            acc.push(c2);
+                        }
+                        _ => {
+                            expected = None;
+                            break;
+                        }
+                    }
+                }
+                if let Some(want) = expected {
+                    match outcome {
+                        Outcome::Ok(ResolvedRecord::Authoritative { rrs: got, .. }) => {
+                            let mut g: Vec<_> = got.iter().map(key).collect();
+                            let mut w: Vec<_> = want.iter().map(key).collect();
+                            g.sort();
+                            w.sort();
+                            if g != w {
+                                out.push(("authoritative-chain-differs", format!("the authoritative zones hold the chain {} but the answer is {}", show_rrs(&want), show_rrs(got))));
+                            }
+                        }
+                        other => out.push(("not-authoritative", format!("the alias chain {} lies entirely in authoritative local zones, got {}", show_rrs(&want), show_outcome(other)))),
+                    }
+                    if !res.log.is_empty() {
+                        out.push(("upstream-contacted", format!("upstream was contacted for an alias chain the authoritative zones settle: {}", show_log(&res.log))));
+                    }
                 }
             }
             RefResult::Delegation(_) => {}
